@@ -37,6 +37,7 @@ using QStr = String<char>;
 struct Case {
     std::vector<uint8_t> bytes;
     int                  vtype{0}; // 0 SizeT, 1 String<char>, 2 Value<char>, 3 HList
+    int                  gen2{0};               // 1: Insert(key, const Value&) may take its value from an entry of the same table (absent in older files: 0)
     bool                 has_marker_key{false}; // a key found by the marker hunt (replay of such a finding)
     std::string          marker_key;
 };
@@ -526,7 +527,7 @@ struct Runner {
     // distribution counters (labels are emitted once per case)
     uint32_t kinds_seen{0};
     bool     f_tombstones{false}, f_removal{false}, f_rename{false}, f_rehash{false}, f_nontrivial{false}, f_skip_resize{false}, f_skip_sort{false},
-        f_truncated{false}, f_resize_behind{false}, f_sort{false}, f_sort_tomb{false};
+        f_truncated{false}, f_resize_behind{false}, f_sort{false}, f_sort_tomb{false}, f_alias{false};
 
     Runner(const Program &pr, const Case &c, pbt::Ctx &cx)
         : p(pr), cs(c), ctx(cx), pool{Table(SizeT(pr.cap[0])), Table(SizeT(pr.cap[1])), Table(SizeT(pr.cap[2]))} {
@@ -748,6 +749,26 @@ struct Runner {
         if constexpr (HasV) {
             V        val  = VO::make(o.seed);
             const V &cval = val;
+            // the value argument of the const-reference overloads may be an entry of the same table (duplicating an entry:
+            // h.Insert(k2, *h.GetValue(k1))); the table may have to grow for the new key while it still has to read that entry
+            if (cs.gen2 != 0 && (o.variant & 0x80u) != 0 && (o.variant % 5u == 2 || o.variant % 5u == 3) && !mm.items.empty()) {
+                const auto       &src  = mm.items[size_t(o.seed) % mm.items.size()];
+                const std::string skey = src.first;
+                const int64_t     sval = src.second;
+                const V          *sp   = t.GetValue(skey.data(), SizeT(skey.size()));
+                if (sp != nullptr) {
+                    if (o.variant % 5u == 2) {
+                        t.Insert(mk(key, nul), *sp);
+                    } else {
+                        const QStr k = mk(key, nul);
+                        t.Insert(k, *sp);
+                    }
+                    mm.put(key, sval, true);
+                    note = "value argument aliases the entry '" + pbt::enc_bytes(skey) + "'";
+                    f_alias = true;
+                    return;
+                }
+            }
             switch (o.variant % 5u) {
                 case 0: t.Insert(mk(key, nul), Memory::Move(val)); break;
                 case 1: {
@@ -1064,6 +1085,7 @@ struct Runner {
         ctx.label("resize-with-live-entries-behind-n", f_resize_behind);
         ctx.label("sort-executed", f_sort);
         ctx.label("sort-with-tombstones", f_sort_tomb);
+        ctx.label("insert-value-aliases-own-entry", f_alias);
     }
 };
 
@@ -1079,11 +1101,13 @@ struct H {
     static const char *name() { return "C13 hash array is an insertion-ordered map"; }
     static rc::Gen<Case> gen() {
         using namespace rc;
-        return gen::map(gen::tuple(gen::resize(420, gen::container<std::vector<uint8_t>>(gen::arbitrary<uint8_t>())), pbt::pick<int>({0, 0, 1, 1, 2, 2, 3})),
-                        [](std::tuple<std::vector<uint8_t>, int> t) {
+        return gen::map(gen::tuple(gen::resize(420, gen::container<std::vector<uint8_t>>(gen::arbitrary<uint8_t>())), pbt::pick<int>({0, 0, 1, 1, 2, 2, 3}),
+                                   pbt::pick<int>({0, 1, 1})),
+                        [](std::tuple<std::vector<uint8_t>, int, int> t) {
                             Case c;
                             c.bytes = std::get<0>(t);
                             c.vtype = std::get<1>(t);
+                            c.gen2  = std::get<2>(t);
                             return c;
                         });
     }
@@ -1196,7 +1220,9 @@ struct H {
         static const bool pooled = (key_pool(), true); // collision sets are built before the first case
         (void)pooled;
         pbt::FuzzBytes f(d, n);
-        c.vtype = f.sel() & 3;
+        const uint8_t sel = f.sel();
+        c.vtype = sel & 3;
+        c.gen2  = (sel >> 2) & 1;
         c.bytes = f.rest();
         return true;
     }
@@ -1214,6 +1240,8 @@ struct H {
         }
         t += "\nvtype=";
         put_num(t, unsigned(c.vtype));
+        t += "\ngen2=";
+        put_num(t, unsigned(c.gen2));
         // readable rendering of the decoded program (ignored by from_text)
         Program p = decode(c);
         t += "\nops=theme ";
@@ -1246,6 +1274,7 @@ struct H {
             c.bytes.push_back(uint8_t(strtoul(hex.substr(i, 2).c_str(), nullptr, 16)));
         }
         c.vtype = int(kv.geti("vtype", 0));
+        c.gen2  = int(kv.geti("gen2", 0));
         if (kv.has("marker_key")) {
             c.has_marker_key = true;
             c.marker_key     = pbt::dec_bytes(kv.get("marker_key"));
